@@ -9,7 +9,9 @@ PROP = dict(
                        "resolve_keeps_origin (a reference without scheme and authority keeps the parent's scheme, credentials, host and port)",
                        "resolve_in_directory (a path-relative reference without dot segments lands in the parent's directory)",
                        "fragment_irrelevant (the text and the text cut at its first '#' get the same answer, however many '#' follow)",
-                       "scheme_relative_takes_parent_scheme (a //host reference under a parent gets the parent's scheme, RFC 3986 5.2.2)"]),
+                       "scheme_relative_takes_parent_scheme (a //host reference under a parent gets the parent's scheme, RFC 3986 5.2.2)",
+                       "state_independent (an object parsed before normalisation, as the sources do for seeds, gives the same String(), Raw and parsed URL as a fresh one; String() is the text of the parsed URL; for an object that was also stringed before: same outcome class and Raw)",
+                       "string_cache_fresh (String() and the parsed URL are canonical also on an object whose String() was called before normalisation)"]),
         # "resolve against the PARENT": which URL the callers hand to NormalizeURL as the parent. The driver of C07 builds seed trees with
         # redirect chains through the real postprocess()/preprocess(); only its monitor 4 belongs to this property (every hop of a chain
         # of Location headers is resolved against the item it was found on, not against the seed)
